@@ -233,7 +233,7 @@ impl ServerFx {
         }
         // (a server on a borrowed handle leaves the store - and the threads the store may have
         // started since - to its owner; the join above already waited for the server's runtime)
-        if self.kv.take().is_some() {
+        if self.kv.take().is_some() && ok {
             crate::store::wait_bg_exit(self.base_threads);
         }
         ok
